@@ -476,6 +476,8 @@ def oracle_fresh(ctx):
                 if old is None: os.environ.pop("TZ", None)
                 else: os.environ["TZ"] = old
                 time.tzset()
+        if rc is None:
+            ctx.count("fresh_child_timeout"); continue      # the child process timed out: infrastructure, no verdict
         there = out.strip().splitlines() if rc == 0 else ["child failed rc=%s: %s" % (rc, err.strip().splitlines()[-1:] or "")]
         if here != there:
             i = next((n for n, (x, y) in enumerate(zip(here, there)) if x != y), min(len(here), len(there)))
